@@ -15,6 +15,12 @@ use std::time::Instant;
 
 pub const VERIF_ROOT: &str = "/verif";
 
+/// Where evidence and replay files go: /verif for the registered checks; `VERIF_OUT_DIR` only for
+/// sensitivity experiments run from a scratch copy of the harness.
+pub fn out_root() -> String {
+    std::env::var("VERIF_OUT_DIR").unwrap_or_else(|_| VERIF_ROOT.to_string())
+}
+
 #[derive(Clone, Copy, Debug, PartialEq, Eq)]
 pub enum Tier {
     Quick,
@@ -483,7 +489,7 @@ impl Run {
             }
         }
         let mut violation_lines = vec![];
-        let _ = std::fs::create_dir_all(format!("{VERIF_ROOT}/replays"));
+        let _ = std::fs::create_dir_all(format!("{}/replays", out_root()));
         for f in &failures {
             if let Some(a) = &f.artifact {
                 println!("  failure kind={} : {}", f.kind, f.message);
@@ -495,7 +501,7 @@ impl Run {
                 "seed": self.seed, "tier": self.tier.name(),
             });
             let h = hash_of(&body.to_string());
-            let path = format!("{VERIF_ROOT}/replays/{}-{:016x}.json", self.id, h);
+            let path = format!("{}/replays/{}-{:016x}.json", out_root(), self.id, h);
             let _ = std::fs::write(&path, serde_json::to_string_pretty(&body).unwrap());
             println!("  failure kind={} : {}", f.kind, f.message);
             violation_lines.push(format!("VIOLATION property={} replay={}", self.id, path));
@@ -528,8 +534,8 @@ impl Run {
             },
             "assumptions": assumptions,
         });
-        let _ = std::fs::create_dir_all(format!("{VERIF_ROOT}/evidence"));
-        let path = format!("{VERIF_ROOT}/evidence/{}.json", self.id);
+        let _ = std::fs::create_dir_all(format!("{}/evidence", out_root()));
+        let path = format!("{}/evidence/{}.json", out_root(), self.id);
         std::fs::write(&path, serde_json::to_string_pretty(&evidence).unwrap())
             .expect("write evidence");
         println!(
